@@ -34,6 +34,8 @@ def handle (req ans : String) : Verdict :=
   let r := words req
   match r with
   | "x" :: _ => handleL2 req ans
+  | "xr" :: _ => handleL2 req ans
+  | "xs" :: _ => handleSeq req ans
   | _ => handleL1 r (words ans)
 
 partial def loop (h : IO.FS.Stream) (out : IO.FS.Stream) (acc : Acc) : IO Acc := do
